@@ -282,15 +282,23 @@ func TypeByKey(env *types.Package, key string) types.Type {
 	if key == "func()" {
 		return types.NewSignatureType(nil, nil, nil, nil, nil, false)
 	}
-	if strings.HasPrefix(key, "env.") {
+	if strings.HasPrefix(key, "env.") && !strings.ContainsAny(key[4:], "[]*( ") {
 		o := env.Scope().Lookup(key[4:])
 		if o == nil {
 			panic("ex: unknown env type " + key)
 		}
 		return o.Type()
 	}
+	if TypeEval != nil {
+		if t := TypeEval(key); t != nil {
+			return t
+		}
+	}
 	panic("ex: unknown type key " + key)
 }
+
+// TypeEval, when set, resolves arbitrary type expressions (set by NewOwn).
+var TypeEval func(key string) types.Type
 
 // TypeText renders a type key as Go source.
 func TypeText(key string) string { return key }
